@@ -1,1 +1,182 @@
-(** Props/C17.v — placeholder, to be written. *)
+(** Props/C17.v — command steps report exit status faithfully and in declaration order.
+
+    Model: Model/Cmd.v.  [orc : string -> outcome] is the operating system (exit code and
+    output of every command line, or a spawn failure); [shell] selects shell/shells vs
+    cmd/cmds; [cf] is ANY step input (plain string, expanded map, list, nested serial
+    sub-lists); [sched : list nat] is ANY completion order of the concurrently running
+    processes.  No bound on the number of commands anywhere.
+
+    Assumed, not proved (level: partial): asyncio.gather starts every awaitable and returns
+    results in argument order (= one result slot per task); OS process semantics. *)
+From PV Require Import Cmd CmdProofs.
+Import ListNotations.
+Open Scope string_scope.
+Open Scope list_scope.
+
+(** * cmd / shell *)
+
+(** the step succeeds iff every command it ran exited 0 ... *)
+Theorem C17_serial_iff_all_zero : forall orc shell cf,
+  ob_err (run_sync orc shell cf) = NoError <->
+  all_zero orc (ob_started (run_sync orc shell cf)).
+Proof. exact serial_ok_iff_ran_all_zero. Qed.
+Print Assumptions C17_serial_iff_all_zero.
+
+(** ... equivalently iff every DECLARED command exits 0, and then all of them ran, in
+    declaration order *)
+Theorem C17_serial_iff_declared_all_zero : forall orc shell cf,
+  ob_err (run_sync orc shell cf) = NoError <-> all_zero orc (sconf_cmds cf).
+Proof. exact serial_ok_iff_declared_all_zero. Qed.
+Print Assumptions C17_serial_iff_declared_all_zero.
+
+Theorem C17_serial_all_zero_runs_all : forall orc shell cf,
+  all_zero orc (sconf_cmds cf) -> ob_started (run_sync orc shell cf) = sconf_cmds cf.
+Proof. exact serial_all_zero_runs_all. Qed.
+Print Assumptions C17_serial_all_zero_runs_all.
+
+(** the commands started are exactly the declared ones up to and including the first that
+    does not exit 0, in declaration order: nothing later is started *)
+Theorem C17_serial_stops_at_first : forall orc shell cf pre c post,
+  sconf_cmds cf = pre ++ c :: post -> all_zero orc pre -> exit_zero orc c = false ->
+  ob_started (run_sync orc shell cf) = pre ++ [c].
+Proof. exact serial_stops_at_first. Qed.
+Print Assumptions C17_serial_stops_at_first.
+
+(** and the error raised carries that command and its exit code *)
+Theorem C17_serial_error_carries_cmd_and_code : forall orc shell cf pre c post rc o e,
+  sconf_cmds cf = pre ++ c :: post -> all_zero orc pre ->
+  orc c = Exited rc o e -> rc <> 0%Z ->
+  exists so se, ob_err (run_sync orc shell cf) =
+                Raised (PErr "subprocess.CalledProcessError" (sync_args shell c) rc so se).
+Proof. exact serial_error_carries. Qed.
+Print Assumptions C17_serial_error_carries_cmd_and_code.
+
+(** a command that cannot be spawned stops the step with the spawn error itself *)
+Theorem C17_serial_spawn_error : forall orc shell cf pre c post n m,
+  sconf_cmds cf = pre ++ c :: post -> all_zero orc pre -> orc c = SpawnFail n m ->
+  ob_err (run_sync orc shell cf) = Raised (PExn n m).
+Proof. exact serial_spawn_error. Qed.
+Print Assumptions C17_serial_spawn_error.
+
+(** cmdOut: the saved results of the commands actually run (the started prefix), failed
+    one included, in declaration order — the bare object when there is exactly one, a list
+    otherwise, untouched when there is none *)
+Theorem C17_serial_cmdOut : forall orc shell cf,
+  ob_out (run_sync orc shell cf) =
+  sync_cmdout (flat_map (saved orc shell) (upto_bad_p orc (spairs (sync_commands cf)))).
+Proof. exact serial_cmdout. Qed.
+Print Assumptions C17_serial_cmdOut.
+
+(** * cmds / shells *)
+
+(** everything the step reports — commands started, the error, cmdOut — is the same for
+    every completion order of the spawned processes *)
+Theorem C17_async_schedule_independent : forall orc shell s1 s2 cf,
+  run_async orc shell s1 cf = run_async orc shell s2 cf.
+Proof. intros. apply async_schedule_independent. Qed.
+Print Assumptions C17_async_schedule_independent.
+
+(** the underlying confluence: from a well-formed state, every schedule and every amount
+    of fuel that covers the remaining work lead to the same final state *)
+Theorem C17_async_machine_confluent : forall orc shell fuel sched sls,
+  Forall wf sls -> (total_work sls <= fuel)%nat ->
+  run_machine orc shell fuel sched sls = map (finish orc shell) sls.
+Proof. exact run_machine_finish. Qed.
+Print Assumptions C17_async_machine_confluent.
+
+(** every top-level entry is started, and before any process has completed *)
+Theorem C17_async_all_started : forall orc shell sched cf k e c,
+  In k (async_commands cf) -> In e (entries k) -> In c (entry_head e) ->
+  In c (ob_wave (run_async orc shell sched cf)) /\
+  In c (ob_started (run_async orc shell sched cf)).
+Proof. intros. apply async_all_top_level_started with (k := k) (e := e); assumption. Qed.
+Print Assumptions C17_async_all_started.
+
+(** each entry runs its commands up to and including its first non-zero exit, no further;
+    entries do not affect each other *)
+Theorem C17_async_sublist_stops : forall orc shell sched cf,
+  ob_started (run_async orc shell sched cf) =
+  flat_map (fun p => upto_bad orc (entry_cmds (snd p))) (aentries (async_commands cf)).
+Proof. intros. apply async_started. Qed.
+Print Assumptions C17_async_sublist_stops.
+
+(** reading of [upto_bad]: the whole list when all exit 0, else the prefix ending at the
+    first that does not *)
+Theorem C17_upto_bad_meaning : forall orc,
+  (forall l, all_zero orc l -> upto_bad orc l = l) /\
+  (forall pre c post, all_zero orc pre -> exit_zero orc c = false ->
+                      upto_bad orc (pre ++ c :: post) = pre ++ [c]).
+Proof. intro orc. split; [exact (upto_bad_all orc)|exact (upto_bad_split orc)]. Qed.
+Print Assumptions C17_upto_bad_meaning.
+
+(** the step succeeds iff every command it ran exited 0 *)
+Theorem C17_async_iff_all_zero : forall orc shell sched cf,
+  ob_err (run_async orc shell sched cf) = NoError <->
+  all_zero orc (ob_started (run_async orc shell sched cf)).
+Proof. intros. apply async_ok_iff_ran_all_zero. Qed.
+Print Assumptions C17_async_iff_all_zero.
+
+(** otherwise exactly one MultiError, listing every failure of a started command —
+    non-zero exits with command and code, spawn errors as raised — in declaration order *)
+Theorem C17_async_one_multierror : forall orc shell sched cf,
+  ob_err (run_async orc shell sched cf) =
+  match all_failures orc shell (async_commands cf) with [] => NoError | l => Multi l end.
+Proof. intros. apply async_err. Qed.
+Print Assumptions C17_async_one_multierror.
+
+(** cmdOut, for EVERY schedule: one element per top-level entry of every saving Command in
+    declaration order — the result object, or for a serial sub-list the list of results of
+    the commands it ran, failed ones included; untouched when nothing saves *)
+Theorem C17_cmdOut_declaration_order : forall orc shell sched cf,
+  ob_out (run_async orc shell sched cf) =
+  if any_save (async_commands cf)
+  then OutList (flat_map (fun p => if ac_save (fst p)
+                                   then [entry_out orc shell (fst p) (snd p)] else [])
+                         (aentries (async_commands cf)))
+  else OutUnset.
+Proof. intros. apply async_out. Qed.
+Print Assumptions C17_cmdOut_declaration_order.
+
+(** * Non-vacuity: concrete instances, evaluated *)
+Definition orc0 : oracle :=
+  oracle_of [("b", Exited 3 "out-b " "err-b"); ("d", Exited 1 "" ""); ("x", SpawnFail "E" "nope")].
+
+(** cmd: [a; {run: [b; c], save}; d] — b exits 3: a and b ran, c and d did not *)
+Definition scf0 : sconf :=
+  CfList [IStr "a"; IMap (mkSmap (RunList ["b"; "c"]) true false); IStr "d"].
+
+Example C17_serial_nonvacuous :
+  sconf_cmds scf0 = ["a"] ++ "b" :: ["c"; "d"]
+  /\ all_zero orc0 ["a"] /\ exit_zero orc0 "b" = false
+  /\ run_sync orc0 false scf0 =
+     mkObs ["a"; "b"] []
+           (Raised (PErr "subprocess.CalledProcessError" (VList [VStr "b"]) 3
+                         (VStr "out-b ") (VStr "err-b")))
+           (OutSingle (R1 (VList [VStr "b"]) 3 (VStr "out-b") (VStr "err-b"))).
+Proof. vm_compute. repeat split. Qed.
+
+(** cmds: [a; [b; c]; {run: [d; [e; x; f]], save}] under two different completion orders *)
+Definition acf0 : aconf :=
+  ACfList [AIStr "a"; AISub ["b"; "c"];
+           AIMap (mkAmap (ARunList [AOne "d"; ASer ["e"; "x"; "f"]]) true false)].
+
+Example C17_async_nonvacuous :
+  (* the machine really takes different paths ... *)
+  step orc0 false 0 (init_slots orc0 (async_commands acf0))
+    <> step orc0 false 3 (init_slots orc0 (async_commands acf0))
+  (* ... and reports the same *)
+  /\ run_async orc0 false ([0; 0; 0; 0; 0])%nat acf0 = run_async orc0 false ([3; 2; 1; 0; 7])%nat acf0
+  /\ run_async orc0 false ([3; 2; 1; 0; 7])%nat acf0 =
+     mkObs ["a"; "b"; "d"; "e"; "x"] ["a"; "b"; "d"; "e"]
+           (Multi [PErr "pypyr.errors.SubprocessError" (VList [VStr "b"]) 3 VNone VNone;
+                   PErr "pypyr.errors.SubprocessError" (VList [VStr "d"]) 1 (VBytes "") (VBytes "");
+                   PExn "E" "nope"])
+           (OutList [EOne (R1 (VList [VStr "d"]) 1 (VBytes "") (VBytes ""));
+                     ESer [R1 (VList [VStr "e"]) 0 (VBytes "") (VBytes ""); X1 "E" "nope"]]).
+Proof. vm_compute. split; [discriminate|split; reflexivity]. Qed.
+
+Example C17_all_started_nonvacuous :
+  In (async_sub ["b"; "c"]) (async_commands acf0)
+  /\ In (ASer ["b"; "c"]) (entries (async_sub ["b"; "c"]))
+  /\ In "b" (entry_head (ASer ["b"; "c"])).
+Proof. vm_compute. auto 10. Qed.
